@@ -26,7 +26,7 @@ class C07(Check):
             'names and random [a-z.A-Z0-9_]), sizes {0,1,0x1FF,0x200,random}, 0x200-aligned offsets, random hashes, '
             'optionally at a non-zero start offset inside a larger file; header built by the Lean spec `Exefs.build`; '
             'every stored name is opened as N, /N, N.bin, /N.bin and read at random (offset, length); '
-            'malformed stream: unaligned offsets, bytes >= 0x80 in names, duplicate names, short headers, random '
+            'malformed stream: unaligned offsets, bytes >= 0x80 in names (single bytes and well-formed UTF-8 sequences), duplicate names, short headers, random '
             'headers; non-trivial = at least one entry parsed or an error raised; distinct = hash(case, outputs)')
     trusted_base = [
         'Lean 4.33 kernel; axioms propext, Classical.choice, Quot.sound only',
@@ -57,7 +57,7 @@ class C07(Check):
         case = {'table': table, 'start': rng.pick([0, 0, 0x10, 0x1234]), 'data': rng.rbytes(min(data_off, 0x3000) + rng.pick([0, 7])),
                 'mut': None, 'seed': rng.getrandbits(32)}
         if malformed:
-            k = rng.pick(['unaligned', 'nonascii', 'dup', 'short', 'random', 'zeroname'])
+            k = rng.pick(['unaligned', 'nonascii', 'utf8name', 'utf8name', 'dup', 'short', 'random', 'zeroname'])
             case['mut'] = [k, rng.randrange(10), rng.randrange(8), rng.randrange(1, 0x200), rng.rbytes(0x200)]
         return case
 
@@ -80,6 +80,14 @@ class C07(Check):
                 header[16 * slot + 8:16 * slot + 12] = (v | 1).to_bytes(4, 'little')
             elif k == 'nonascii':
                 header[16 * slot + j] = 0x80 | (v & 0x7F)
+            elif k == 'utf8name':
+                # a name that is well-formed UTF-8 (or Latin-1 / Shift-JIS looking) but not ASCII, on an occupied slot when there is one
+                occ = [i for i, t in enumerate(table) if t is not None]
+                slot = occ[slot % len(occ)] if occ else slot
+                nm = [b'caf\xc3\xa9', b'\xe3\x81\x82bc', b'\xc2\xa0logo', b'ic\xc3\xb6n', b'\xf0\x9f\x98\x80', b'na\xc3\xafve\xc2\xb7'][v % 6]
+                header[16 * slot:16 * slot + 8] = nm.ljust(8, b'\0')[:8]
+                if not any(header[16 * slot + 8:16 * slot + 16]):
+                    header[16 * slot + 12:16 * slot + 16] = (0x10).to_bytes(4, 'little')     # make the slot an entry
             elif k == 'dup':
                 header[16 * slot:16 * slot + 8] = header[16 * ((slot + 1) % 10):16 * ((slot + 1) % 10) + 8]
             elif k == 'short':
@@ -157,6 +165,9 @@ class C07(Check):
         elif wf:
             mon.append(f'well-formed header rejected: {outs[0]}')
             key = 'exefs.reject'
+        if mut and mut[0] == 'utf8name' and len(header) >= 0x200 and outs and outs[0] != 'e:ExeFSNameError':
+            mon.append(f'a header with a non-ASCII entry name was not rejected with the name error: {outs[0][:60]}')
+            key = 'exefs.nonascii'
         if mut and rd is not None and mut[0] in ('unaligned', 'nonascii'):
             # the mutation may have hit an empty slot; only flag when the model (= code semantics) says it must fail
             pass
